@@ -129,6 +129,10 @@ class QuantileLinearRegression(LinearRegression):
 
         if self.fit_intercept:
             Xm = numpy.hstack([X, numpy.ones((X.shape[0], 1))])
+            if self.positive:
+                # Only the coefficients are constrained, the intercept
+                # is the difference of two positive terms.
+                Xm = numpy.hstack([Xm, -numpy.ones((X.shape[0], 1))])
         else:
             Xm = X
 
@@ -157,7 +161,10 @@ class QuantileLinearRegression(LinearRegression):
                 break
             lastE = E
 
-        if self.fit_intercept:
+        if self.fit_intercept and self.positive:
+            self.coef_ = beta[:-2]
+            self.intercept_ = beta[-2] - beta[-1]
+        elif self.fit_intercept:
             self.coef_ = beta[:-1]
             self.intercept_ = beta[-1]
         else:
